@@ -53,5 +53,8 @@ int main(){
   CC("isH", isH(c)); CC("isB", isB(c)); CC("isQ", isQ(c)); CC("isE", isE(c)); CC("isascii7", isascii7bit(c));
   CC("isexpr", isProgramExpression(c)); CC("isnzdigit", isNonzeroDigit(u));
   CC("isdigit", isdigit(u)); CC("isalpha", isalpha(u)); CC("isalnum", isalnum(u)); CC("isxdigit", isxdigit(u));
+  /* <ctype.h> as utils.c, parser.c and expression.c rely on it (strncasecmp, islower in patternSeparatorShortPos, the isspace of strtol) */
+  CC("islower", islower(u)); CC("isupper", isupper(u)); CC("isspace", isspace(u));
+  printf("Definition gen_tolower : list N := ["); for (int b = 0; b < 256; b++) printf("%s%d", b ? "; " : "", tolower(b)); printf("]%%N.\n");
   printf("Definition gen_native_format : Z := %d%%Z.  (* SCPI_GetNativeFormat(): 1 big endian (NORMAL), 2 little endian (SWAPPED) *)\n", (int)SCPI_GetNativeFormat());
   return 0; }
